@@ -104,6 +104,12 @@ def discrete_stage(st, tier, seed, binary, tag, ncases=None, extra_cases=None, g
             sg.nontrivial.add(digest(src.get(tc.id, [tc.id])))
         for prop, msg in tc.x:
             sg.failures.append((prop, msg, src.get(tc.id)))
+        # a panic of the crate on a call that is valid by construction of the generator is itself a violation
+        pm = PANIC_IS_FAILURE.get(st, {})
+        for op, res, words in tc.ops:
+            if res == ['panic'] and op[0] in pm:
+                sg.failures.append((pm[op[0]], '%s: the crate panicked on `%s`' % (st, ' '.join(op[:4])), src.get(tc.id)))
+                break
     if st in corr.OPC:
         dis, aux, errs = corr.model_check(st, tcs, tag)
         sg.traces = len(tcs)
@@ -122,6 +128,17 @@ def discrete_stage(st, tier, seed, binary, tag, ncases=None, extra_cases=None, g
                'distinct = distinct case text')
     sg.wall = time.time() - t0
     return sg
+
+PANIC_IS_FAILURE = {
+    'td': {'quant': 'C15', 'cdf': 'C15', 'count': 'C16', 'sum': 'C16', 'mean': 'C16', 'min': 'C16', 'max': 'C16', 'ncent': 'C04', 'empty': 'C16', 'ins': 'C16', 'audit': 'C15', 'clear': 'C19'},
+    'res': {'add': 'C18', 'obs': 'C18', 'clear': 'C19'},
+    'heap': {'add': 'C10', 'iter': 'C10', 'clear': 'C19'},
+    'lossy': {'add': 'C09', 'query': 'C09', 'obs': 'C09', 'clear': 'C19'},
+    'hllc': {'count': 'C03'},
+    'hll': {'addh': 'C17', 'add': 'C17', 'regs': 'C17', 'count': 'C03', 'merge': 'C06', 'clear': 'C19'},
+    'qf': {'ins': 'C13', 'q': 'C13', 'obs': 'C13', 'union': 'C06', 'clear': 'C19'},
+    'cuckoo': {'ins': 'C14', 'del': 'C14', 'q': 'C14', 'obs': 'C14', 'dobs': 'C14', 'union': 'C06', 'clear': 'C19'},
+}
 
 def hash_str(s):
     return int(hashlib.sha1(s.encode()).hexdigest()[:8], 16)
@@ -351,6 +368,10 @@ def main(argv):
                     small = shrink_case(lines, lambda L: oracle_fails(binary, L, prop, tag))
                 except Exception:
                     small = lines
+            if small is not lines and small and binary:
+                tc2 = run_one_case(binary, small, tag)
+                if tc2 is not None:
+                    msg = next((m for p2, m in tc2.x if p2 in (prop, '*')), msg)
             path = write_replay(prop, 'input', {'property': prop, 'kind': 'input', 'stage': s.name, 'oracle_message': msg,
                                                 'case': small, 'how_to_replay': './check %s --replay <this file>' % prop})
             violations.append((path, ''))
@@ -508,12 +529,13 @@ def res_statistical(seed, bins, tag, runs=4000):
     sg = Stage('statistical-uniformity:res')
     rng = random.Random(seed)
     cases, index = [], {}
-    for k, n in [(1, 2), (2, 5), (3, 13), (4, 17), (4, 24), (8, 60)]:
+    for k, n, warm in [(1, 2, 0), (2, 5, 0), (3, 13, 0), (4, 17, 0), (4, 24, 0), (8, 60, 0), (2, 9, 60), (8, 40, 300)]:
         for r in range(runs):
-            cid = 's%d_%d_%d' % (k, n, r)
-            L = ['new 0 %d' % k] + ['add 0 %d' % p for p in range(n)] + ['obs 0']
-            cases.append(gen.case(cid, 'res', {'rngseed': rng.randrange(1 << 48)}, L))
-            index[cid] = (k, n)
+            cid = 's%d_%d_%d_%d' % (k, n, warm, r)
+            pre = (['add 0 %d' % (900000 + p) for p in range(warm)] + ['clear 0']) if warm else []   # a used, then cleared sampler
+            L = ['new 0 %d' % k] + pre + ['add 0 %d' % p for p in range(n)] + ['obs 0']
+            cases.append(gen.case(cid, 'res', {'rngseed': rng.randrange(1 << 48), 'freshpass': 0}, L))
+            index[cid] = (k, n + (1000000 if warm else 0))
     path = os.path.join(build.BUILD, '%s_ress.cases' % tag)
     gen.write_cases(path, cases)
     try:
@@ -532,14 +554,16 @@ def res_statistical(seed, bins, tag, runs=4000):
         totals[(k, n)] += 1
         for x in last[1][:-2]:
             counts[(k, n)][int(x)] += 1
-    for (k, n), tot in totals.items():
+    for (k, n_), tot in totals.items():
+        n = n_ % 1000000
+        warmed = n_ >= 1000000
         p = k / n
         sigma = (p * (1 - p) / tot) ** 0.5
         for pos in range(n):
-            f = counts[(k, n)][pos] / tot
+            f = counts[(k, n_)][pos] / tot
             if abs(f - p) > 6 * sigma + 1e-9:
-                L = ['new 0 %d' % k] + ['add 0 %d' % q for q in range(n)] + ['obs 0']
-                sg.failures.append(('C05', 'k=%d n=%d: position %d kept in %.4f of %d seeded runs, expected %.4f (6 sigma = %.4f)' % (k, n, pos, f, tot, p, 6 * sigma),
+                L = ['new 0 %d' % k] + (['<warm-up adds>', 'clear 0'] if warmed else []) + ['add 0 %d' % q for q in range(n)] + ['obs 0']
+                sg.failures.append(('C05', 'k=%d n=%d%s: position %d kept in %.4f of %d seeded runs, expected %.4f (6 sigma = %.4f)' % (k, n, ' (after warm-up and clear)' if warmed else '', pos, f, tot, p, 6 * sigma),
                                     gen.case('stat_k%d_n%d' % (k, n), 'res', {'rngseed': 'any'}, L)))
                 break
     sg.wall = time.time() - t0
@@ -609,5 +633,81 @@ def hll_accuracy_stage(prop, tier, seed, bins, tag):
         if rms > lim_rms or abs(mean) > 0.7 * re_ + 2.0 / n or tail > 0.15:
             sg.failures.append(('C03', 'b=%d n=%d over %d seeds: rms=%.4f mean=%.4f tail(3x)=%.2f, relative_error()=%.4f' % (b, n, len(errs), rms, mean, tail, re_),
                                 gen.case('acc_b%d_n%d' % (b, n), 'hll', {'hasher': 'sip'}, ['new 0 %d' % b, 'fill 0 %d <seed>' % n, 'count 0'])))
+    sg.wall = time.time() - t0
+    return [sg]
+
+# ------------------------------------------------------------------ C08: (eps, delta) measurement incl. the known finding KF1
+def measure_cases(binary, tag, lines, case_ms=120000):
+    path = os.path.join(build.BUILD, '%s_meas.cases' % tag)
+    gen.write_cases(path, [gen.case('meas', 'sizing', {}, lines)])
+    tcs = corr.parse_transcript(corr.run_harness(binary, path, timeout=1200, case_ms=case_ms))
+    return tcs[0] if tcs else None
+
+def c08_measure_stage(prop, tier, seed, bins, tag):
+    """failing fraction of (seed, probe) pairs whose overestimate exceeds eps*N, for the witness configuration of the
+    known finding (double hashing: only w^2 position vectors, so a floor of about H/w^2 that no d removes) and for
+    configurations where that floor is far below delta"""
+    import math
+    t0 = time.time()
+    sg = Stage('measurement:cms-eps-delta')
+    if tier == 'search':
+        return [sg]
+    seeds, probes = (60, 2000) if tier == 'quick' else (400, 4000)
+    base = 1 + (seed % 1000) * 1000
+    cfgs = [(0.01, 1e-4, 95), (0.05, 0.05, 10), (0.1, 0.1, 5), (0.02, 0.2, 20), (0.3, 0.5, 2)]
+    lines = ['cmsfail %d %d %d %d %d %d' % (gen.f64bits(e), gen.f64bits(d), h, seeds, probes, base) for e, d, h in cfgs]
+    tc = measure_cases(bins.get('release') or bins['debug'], tag, lines)
+    if tc is None:
+        sg.errors.append('measurement run failed'); return [sg]
+    sg.cases = len(cfgs)
+    for (eps, delta, heavy), (op, res, w_) in zip(cfgs, tc.ops):
+        if res in (['panic'], ['skipped']):
+            sg.failures.append(('C08', 'measurement panicked for eps=%g delta=%g' % (eps, delta), None)); continue
+        fails, pairs, w, d = map(int, res)
+        frac = fails / pairs
+        floor = heavy / (w * w)
+        sigma = math.sqrt(max(delta + floor, 1e-9) / pairs)
+        sg.dist['eps=%g delta=%g H=%d: w=%d d=%d failing=%.2e floor H/w^2=%.2e' % (eps, delta, heavy, w, d, frac, floor)] = fails
+        sg.nontrivial.add('%g-%g' % (eps, delta))
+        case_lines = gen.case('c08_eps%g_delta%g' % (eps, delta), 'sizing', {}, ['cmsfail %d %d %d %d %d %d' % (gen.f64bits(eps), gen.f64bits(delta), heavy, seeds, probes, base)])
+        if frac > delta + floor + 6 * sigma + 3 * floor:
+            sg.failures.append(('C08', 'eps=%g delta=%g (w=%d, d=%d), %d heavy hitters: overestimate > eps*N for %.3e of %d (seed, element) pairs; delta + double-hashing floor = %.3e' % (
+                eps, delta, w, d, heavy, frac, pairs, delta + floor), case_lines))
+        elif frac > delta:
+            sg.failures.append(('C08', 'kf=double-hashing-floor eps=%g delta=%g (w=%d, d=%d), %d heavy hitters just above eps*N: overestimate > eps*N for %.2e of %d (seed, element) pairs > delta; predicted floor H/w^2 = %.2e (two keys with equal (h1, h2) mod w collide in every row)' % (
+                eps, delta, w, d, heavy, frac, pairs, floor), case_lines))
+    sg.samples.append({'measurement': dict(sg.dist)})
+    sg.rule = 'one measurement per (eps, delta, heavy hitters) configuration over seeded hashers x never-inserted probe keys; every configuration is non-trivial'
+    sg.wall = time.time() - t0
+    return [sg]
+
+def c07_rates_stage(prop, tier, seed, bins, tag):
+    """failing-input search for the statistical sentences of C07 (runs only after a break): false-positive frequency over
+    seeded hashers x disjoint probes against p (cuckoo) / 1.3 p (Bloom, n >= 50), Full within n inserts, len() accuracy"""
+    import math
+    sg = Stage('statistical-rates:filters')
+    if tier != 'search':
+        return [sg]
+    t0 = time.time()
+    base = 1 + (seed % 1000) * 1000
+    cfgs = [(k, n, p_) for k in ('bloom', 'cuckoo4', 'cuckoo8') for n in (50, 1000, 5000) for p_ in (0.3, 0.05, 0.01, 0.001)]
+    lines = ['fprate %s %d %d %d %d %d' % (k, n, gen.f64bits(p_), 30, 4000, base) for k, n, p_ in cfgs]
+    tc = measure_cases(bins.get('release') or bins['debug'], tag, lines)
+    if tc is None:
+        sg.errors.append('measurement run failed'); return [sg]
+    sg.cases = len(cfgs)
+    for (k, n, p_), (op, res, w_) in zip(cfgs, tc.ops):
+        case_lines = gen.case('c07_%s_%d_%g' % (k, n, p_), 'sizing', {}, ['fprate %s %d %d 30 4000 %d' % (k, n, gen.f64bits(p_), base)])
+        if res in (['panic'], ['skipped']):
+            sg.failures.append(('C07', '%s with_properties(n=%d, p=%g): panic while inserting n elements / probing' % (k, n, p_), case_lines)); continue
+        fp, pairs, full, lenerr = map(int, res)
+        lim = (1.3 if k == 'bloom' else 1.0) * p_
+        frac = fp / pairs
+        if frac > lim + 6 * math.sqrt(lim / pairs):
+            sg.failures.append(('C07', '%s with_properties(n=%d, p=%g): false-positive frequency %.4g over %d (seed, probe) pairs exceeds %.4g' % (k, n, p_, frac, pairs, lim), case_lines))
+        if full:
+            sg.failures.append(('C07', '%s with_properties(n=%d, p=%g): reported Full within n distinct inserts for %d of 30 seeds' % (k, n, p_, full), case_lines))
+        if k == 'bloom' and n >= 1000 and lenerr > 150:
+            sg.failures.append(('C07', 'bloom len() off by %.1f%% after %d distinct inserts (p=%g)' % (lenerr / 10.0, n, p_), case_lines))
     sg.wall = time.time() - t0
     return [sg]
